@@ -13,6 +13,11 @@ CV.Ca — executable model of the Connect CA leaf-signing path and of the CA tab
   agent/consul/state/connect_ca.go  CA roots / config / provider-state / serial tables
   agent/consul/fsm/commands_ce.go   ApplyConnectCAOperationFromRequest
 
+The code modelled is /repo at or after the fix commits 7598e15 (agents: datacenter check), d4218d0
+(`isSameAgentURI`: the trust-domain fix-up also replaces agent URIs that are not in canonical form),
+68fde22 (active roots counted per root id, last one wins), 9d8398d / bb7cbe1 (honest roots CAS,
+roots+config in one transaction).
+
 All strings are byte strings (`Bytes = List Nat`): percent-decoding yields arbitrary bytes.
 A `Url` is what Go's net/url hands to the code (Scheme, Host, Path, RawPath) plus `str`, the value of
 `u.String()` (net/url is trusted, not modelled; only the rendering of URLs the code *constructs*
